@@ -105,7 +105,16 @@ impl Vm {
     }
 
     pub fn prepare_eval(&mut self, cell: &Cell) -> Result<(), Error> {
-        let lambda = self.compile_runnable(cell)?;
+        let lambda = match self.compile_runnable(cell) {
+            Ok(lambda) => lambda,
+            Err(e) => {
+                // Constants and code the compiler allocated before rejecting the form are
+                // garbage: collect here as after an evaluation, or repeated compile errors
+                // grow the heap without bound.
+                self.run_gc();
+                return Err(e);
+            }
+        };
         trace!("entry: \n{}", self.decompile_text(&lambda));
         let lambda = self.heap.put(lambda);
         self.ip.0 = lambda.as_ptr().unwrap();
